@@ -733,6 +733,15 @@ def execute(case, mon):
     taps = _Taps(mon, script if script["kind"] != "native" else dict(script, seq=["uniform"]))
     sa = Mo.SpecAugment(*_cfg_args(cfg), interpolation_order=order)
     sa.train()
+    if N > 1 and (N + T + F) % 2 == 0:
+        # a history of calls on ONE module object: first a smaller batch (other N and T), result discarded
+        with torch.random.fork_rng():
+            torch.manual_seed(12345)
+            with warnings.catch_warnings():
+                warnings.simplefilter("ignore")
+                mon.lib("SpecAugment(warm-up call on the same object)",
+                        lambda: sa(x0[:1, : max(1, T // 2)].clone().float()))
+        mon.cls("module_object_reused")
     if script["kind"] == "native":
         torch.manual_seed(int(script["seed"]))
     forms = [case["parts_form"], "functional" if case["parts_form"] == "module" else "module"]
